@@ -74,6 +74,11 @@ CORPUS = [
     dict(tree=('fn', 'sqrt', _X), x=[0.0011, 1.0], method='central', n=1, order=2, shape=[2]),           # 2eb6030
     dict(tree=('fn', 'exp', ('mul', ('ci', 1.0), _X)), x=[0.5], method='central', n=1, order=2, cplx=True),   # 4b12ea2
     dict(tree=('fn', 'sin', _X), x=[0.3, 1.2, 2.0], method='multicomplex', n=1, order=2, shape=[3]),     # 8280d5f
+    # two step ratios that agree to four decimals, one after the other in the same process: each has its own rule
+    dict(tree=('fn', 'exp', _X), x=[0.7], method='central', n=1, order=4, step=dict(kind='min', opts=dict(base_step=0.01, step_ratio=2.0, num_steps=9))),
+    dict(tree=('fn', 'exp', _X), x=[0.7], method='central', n=1, order=4, step=dict(kind='min', opts=dict(base_step=0.01, step_ratio=2.00004, num_steps=9))),
+    dict(tree=('fn', 'sin', _X), x=[1.1], method='forward', n=1, order=3, step=dict(kind='min', opts=dict(base_step=0.01, step_ratio=3.0, num_steps=9))),
+    dict(tree=('fn', 'sin', _X), x=[1.1], method='forward', n=1, order=3, step=dict(kind='min', opts=dict(base_step=0.01, step_ratio=2.99997, num_steps=9))),
     # the variable used again after a function was applied to it directly (a function of a number does not change the number)
     dict(tree=('mul', _X, ('fn', 'arcsinh', _X)), x=[-0.7], method='multicomplex', n=2, order=2),
     dict(tree=('add', ('fn', 'arcsinh', _X), ('fn', 'exp', _X)), x=[-3.0], method='multicomplex', n=1, order=2),
